@@ -131,13 +131,14 @@ Qed.
 Lemma okey_fresh_track c k w o : okey (fresh_track c k w) o = okey c o.
 Proof. reflexivity. Qed.
 
-Lemma TI_register c k w : TI c -> okey c w = Some k -> TI (register c k w).
+Lemma TI_register pinned c k w : TI c -> okey c w = Some k -> TI (register pinned c k w).
 Proof.
   intros T Hw. unfold register.
   set (c1 := match decoys c k with Some _ => c | None => fresh_track c k w end).
   assert (T1 : TI c1).
   { unfold c1. destruct (decoys c k) eqn:K; auto. now apply TI_fresh_track. }
   clearbody c1. destruct (decoys c1 k) as [o|] eqn:K; auto.
+  destruct (negb pinned && negb (Nat.eqb o w)); auto.
   destruct (o_valid (objs c1 o)) eqn:V; auto.
   destruct T1 as [A B C D E F G]. unfold set_objs.
   constructor; cbn; auto.
@@ -176,7 +177,7 @@ Qed.
 Lemma TI_stats c d e b a x : TI c -> TI (set_stats c d e b a x).
 Proof. apply TI_ext; auto. Qed.
 
-Lemma TI_validate share c w m : TI c -> okey c w = Some (m_key m) -> TI (validate share c w m).
+Lemma TI_validate pinned share c w m : TI c -> okey c w = Some (m_key m) -> TI (validate pinned share c w m).
 Proof.
   intros T Hw. unfold validate.
   set (c1 := if m_detector m && share then add_event (EShare w) c else c).
@@ -421,19 +422,19 @@ Lemma fresh_track_mono c k w :
   forall k', timeouts c k' <> None -> timeouts (fresh_track c k w) k' <> None.
 Proof. repeat split; auto. intros k'. cbn. apply upd_keeps_some. Qed.
 
-Lemma register_mono c k w :
-  panicked (register c k w) = panicked c /\ thr (register c k w) = thr c /\
-  forall k', timeouts c k' <> None -> timeouts (register c k w) k' <> None.
+Lemma register_mono pinned c k w :
+  panicked (register pinned c k w) = panicked c /\ thr (register pinned c k w) = thr c /\
+  forall k', timeouts c k' <> None -> timeouts (register pinned c k w) k' <> None.
 Proof.
   unfold register. destruct (decoys c k) eqn:K.
-  - rewrite K. destruct (o_valid (objs c n)); repeat split; auto.
-  - destruct (decoys (fresh_track c k w) k); [destruct (o_valid _)|]; repeat split; auto;
-      intros k'; cbn; apply upd_keeps_some.
+  - rewrite K. destruct (negb pinned && negb (Nat.eqb n w)); [|destruct (o_valid (objs c n))]; repeat split; auto.
+  - destruct (decoys (fresh_track c k w) k); [destruct (negb pinned && negb (Nat.eqb n w)); [|destruct (o_valid _)]|];
+      repeat split; auto; intros k'; cbn; apply upd_keeps_some.
 Qed.
 
-Lemma validate_mono share c w m :
-  panicked (validate share c w m) = panicked c /\ thr (validate share c w m) = thr c /\
-  forall k', timeouts c k' <> None -> timeouts (validate share c w m) k' <> None.
+Lemma validate_mono pinned share c w m :
+  panicked (validate pinned share c w m) = panicked c /\ thr (validate pinned share c w m) = thr c /\
+  forall k', timeouts c k' <> None -> timeouts (validate pinned share c w m) k' <> None.
 Proof.
   unfold validate.
   set (c1 := if m_detector m && share then add_event (EShare w) c else c).
@@ -442,7 +443,7 @@ Proof.
   destruct E as (E1 & E2 & E3). clearbody c1.
   destruct (m_detector m && at_pol (m_ph_blocked m) (pol c)); cbn.
   - rewrite E1, E2, E3. auto.
-  - destruct (register_mono c1 (m_key m) w) as (R1 & R2 & R3). rewrite R1, R2, E1, E2. repeat split; auto.
+  - destruct (register_mono pinned c1 (m_key m) w) as (R1 & R2 & R3). rewrite R1, R2, E1, E2. repeat split; auto.
     intros k'. rewrite <- E3. apply R3.
 Qed.
 
